@@ -536,6 +536,13 @@ def rule_narrowed_kind_compared(check, rule):
                     par_ = t_._parent
                     if isinstance(par_, ast.If) and t_ in par_.body:
                         chain.append(par_)
+                    # guard clauses before it in the same block (`if not c: continue`) are tests on the way too
+                    for field in ('body', 'orelse'):
+                        blk = getattr(par_, field, None)
+                        if isinstance(blk, list) and t_ in blk:
+                            for s_ in blk[:blk.index(t_)]:
+                                if isinstance(s_, ast.If) and not s_.orelse and isinstance(s_.body[-1], (ast.Continue, ast.Break, ast.Return)):
+                                    chain.append(s_)
                     t_ = par_
                 if chain:
                     x = _T()
